@@ -179,6 +179,21 @@ CLAIMED = {
         "code point lower-cases into a relevant character); import probing modelled as one Boolean per module.",
         "Lean 4 theorems (case analysis) + kernel-checked regenerated tables + differential correspondence",
         "DESIGN.md §5 C20"),
+    "C19": (
+        "Kernel-checked theorems for all seeds, states and inputs: C19_xorshift_range (every output < 2^32 although _w is unmasked), "
+        "C19_randint_range + C19_randint_uniform (result is a + x mod w for the first accepted output; every residue is hit by exactly "
+        "limit/w accepted 32-bit outputs), C19_choice, C19_shuffle_perm + C19_shuffle_bijective (every permutation of a duplicate-free "
+        "list arises from exactly one admissible draw sequence), C19_random_range, C19_sound (a returned problem was passed to the "
+        "solver, reported satisfiable, accepted by uniqueness and pretest), C19_neighbours (every tried neighbour differs only inside "
+        "one builder's position by an admissible update), C19_array / C19_array_initial (ArrayBuilder2D: only listed cells change, to "
+        "choice/default values; point symmetry of default-ness preserved; adjacency rule preserved by value-setting updates). "
+        "Reproducibility w.r.t. the global random state / backend and purity (earlier problems never mutated) are decided by the "
+        "correspondence: real runs under different random.seed() states and snapshots vs the model run from the same XorShift seed.",
+        "Trusted: Lean kernel + standard axioms; the float acceptance test random() < exp(d/T) is an abstract parameter of the model "
+        "(soundness does not depend on it); exactness of float(x)/2**32 checked per call by the harness; independence of successive "
+        "PRNG outputs is not claimed; reproducibility/purity rest on the correspondence.",
+        "Lean 4 theorems (invariants by induction over PRNG steps / generator steps, counting) + differential correspondence",
+        "DESIGN.md §5 C19"),
 }
 
 NOT_YET = "machinery for this property is still under construction in this round (model/theorems not yet committed)"
